@@ -2,6 +2,7 @@
 # recheck_seeds.sh: re-run, against each kept seeded change applied to /repo's HEAD in a scratch
 # worktree, the check of its own property and every check recorded as catching it; rewrite
 # "checks_that_fire" in meta.json. (The full sweep over all checks is done once, by confirm_seed.sh.)
+PV=${PVCHECK:-/verif/bin/pvcheck}
 export GOFLAGS=-mod=mod GOPROXY=off GOSUMDB=off GOTOOLCHAIN=local GOWORK=off
 wt=/var/tmp/rs-wt
 git -C /repo worktree remove --force $wt 2>/dev/null
@@ -9,12 +10,13 @@ git -C /repo worktree add -q --force --detach $wt HEAD || exit 2
 mkdir -p /var/tmp/rs-vd; cp /verif/known_findings.txt /var/tmp/rs-vd/
 for d in /verif/seeded/*/; do
   name=$(basename $d)
+  [ -f $d/meta.json ] || continue
   (cd $wt && git checkout -q -- . && git clean -fdq)
   if ! (cd $wt && git apply $d/patch.diff 2>/dev/null); then echo "$name: patch no longer applies to HEAD"; continue; fi
   props=$(jq -r '([.property] + .checks_that_fire) | unique | .[]' $d/meta.json)
   fired=""
   for p in $props; do
-    if ! PILOSA_REPO=$wt VERIF_DIR=/var/tmp/rs-vd /verif/bin/pvcheck -prop $p > /var/tmp/rs-check.log 2>&1; then fired="$fired $p"; cp /var/tmp/rs-check.log $d/check_$p.log; else rm -f $d/check_$p.log; fi
+    if ! PILOSA_REPO=$wt VERIF_DIR=/var/tmp/rs-vd $PV -prop $p > /var/tmp/rs-check.log 2>&1; then fired="$fired $p"; cp /var/tmp/rs-check.log $d/check_$p.log; else rm -f $d/check_$p.log; fi
   done
   python3 - <<PY
 import json
